@@ -54,7 +54,7 @@ func behaviourClass(steps []step, verdictKey string) string {
 			if s.str("b") != "main" {
 				feat["branch"] = true
 			}
-		case "stage", "stash", "switch", "serverloses":
+		case "stage", "stash", "switch", "serverloses", "worktree":
 			feat[s.str("a")] = true
 		default:
 			nver++
@@ -62,6 +62,9 @@ func behaviourClass(steps []step, verdictKey string) string {
 	}
 	if v, ok := last["deletes"].([]interface{}); ok && len(v) > 0 {
 		feat["refdel"] = true
+	}
+	if last.str("from") == "linked" {
+		feat["from-linked"] = true
 	}
 	if v, ok := last["expectDeleted"].([]interface{}); ok && len(v) > 0 {
 		feat["deletes"] = true
@@ -97,6 +100,9 @@ func requireActions(c *core.Ctx, names ...string) {
 	}
 	c.Set("actions_in_emitted_behaviours", actionsSeen)
 }
+
+// samplePriority, when set by a check, marks behaviour classes that are replayed first.
+var samplePriority func(class string) bool
 
 func sampleBehaviours(c *core.Ctx, file string, verdictKey string, budget int) ([]*behaviour, int, int) {
 	byClass := map[string][]*behaviour{}
@@ -138,10 +144,27 @@ func sampleBehaviours(c *core.Ctx, file string, verdictKey string, budget int) (
 		}
 		classes = append(classes, k)
 	}
-	sort.Strings(classes)
+	// classes in a seed-dependent order (when there are more classes than budget, different seeds
+	// replay different ones); classes the caller marks as priority take up to a third of the budget first
+	sort.Slice(classes, func(i, j int) bool { return fnvStr(classes[i], c.Seed) < fnvStr(classes[j], c.Seed) })
 	var out []*behaviour
+	taken := map[string]bool{}
+	if samplePriority != nil {
+		for _, k := range classes {
+			if len(out) >= budget/3 {
+				break
+			}
+			if samplePriority(k) {
+				out = append(out, byClass[k][0])
+				taken[k] = true
+			}
+		}
+	}
 	for round := 0; round < 8 && len(out) < budget; round++ {
 		for _, k := range classes {
+			if round == 0 && taken[k] {
+				continue
+			}
 			if round < len(byClass[k]) && len(out) < budget {
 				out = append(out, byClass[k][round])
 			}
